@@ -33,7 +33,7 @@ func NewTemplate(opt *config.Config) (*Template, error) {
 		return nil, parseErr.Error()
 	}
 
-	return &Template{programs: programs}, nil
+	return &Template{programs: programs, paths: paths}, nil
 }
 
 func EvaluateString(inp string, data map[string]any) (string, error) {
